@@ -17,7 +17,7 @@ def render_line(l, hchar, hlist=None):
     if k == "over":
         return hchar * t[1]
     if k == "title":
-        return t[1]
+        return tid(t[1])
     if k == "para":
         n, j, lead, w = t[1], t[2], t[3], t[4]
         return sp + " " * lead + (("%s%d" % (w, n)) if w else "")
@@ -38,8 +38,14 @@ def render_line(l, hchar, hlist=None):
     if k == "sover":
         return hlist[t[2]] * t[3]
     if k == "stitle":
-        return t[2]
+        return tid(t[2])
     raise ValueError(t)
+
+
+def tid(s):
+    """title ids of the specification are ASCII (TLC's ToJson mangles characters above U+00FF): '%W' stands for a wide
+    character (U+5DE5), '~' for COMBINING ACUTE ACCENT"""
+    return s.replace("%W", "\u5de5").replace("~", "\u0301")
 
 
 def optname(node, j):
@@ -64,13 +70,13 @@ def replay_history(beh, headers):
     for step, o in enumerate(hist):
         op = o["op"]
         if op == "new":
-            root = RSTWriter(o["t"]["id"], settings=settings)
+            root = RSTWriter(tid(o["t"]["id"]), settings=settings)
             handles[0] = root
-            if len(o["t"]["id"]) != o["t"]["len"]:
+            if len(tid(o["t"]["id"])) != o["t"]["len"]:
                 raise lib.MachineryError("title menu inconsistent: %r" % (o["t"],))
             continue
         if op == "set_title":
-            root.title = o["t"]["id"]
+            root.title = tid(o["t"]["id"])
             continue
         w = handles[o["h"]]
         if op == "text":
@@ -93,7 +99,7 @@ def replay_history(beh, headers):
             w.doctest("test%d" % nnodes, "exp%d" % nnodes)
         elif op == "section":
             nnodes += 1
-            handles[nnodes] = w.section(o["t"]["id"])
+            handles[nnodes] = w.section(tid(o["t"]["id"]))
         elif op == "option":
             j = optcount.get(o["h"], 0) + 1
             optcount[o["h"]] = j
